@@ -123,7 +123,8 @@ def arg_values(names: Sequence[str]) -> list:
 
 
 # ----------------------------------------------------------------------------- text sources (stdin)
-# name -> (source text (may span lines), value parts, generator call or None)
+# name -> (source text (may span lines), value parts, None or (argv values, stdin value or None) of the program that
+#          generates the text)
 GEN_OUT = 'generated line 1\ngenerated 2'
 FILE_TXT = 'contents of f.txt\nline 2\n'
 
@@ -135,8 +136,12 @@ T = {
     'sym3': ('@[S3]@', [S(3)], None),
     'here-doc': ('<<EOF\nfirst line\n  second @[S3]@ line\nEOF', [C('first line\n  second '), S(3), C(' line\n')], None),
     'file': ('-contents-of -rel-home f.txt', [C(FILE_TXT)], None),
-    'program': ('-stdout-from % gen g1 @[S0]@', [C(GEN_OUT)], ('gen', [[C('gen')], [C('g1')], [S(0)]])),
+    'program': ('-stdout-from % gen g1 @[S0]@', [C(GEN_OUT)], ([[C('gen')], [C('g1')], [S(0)]], None)),
+    # G is defined by DEF_G: a program with arguments and a stdin of its own
+    'program-w-stdin': ('-stdout-from @ G @[S1]@', [C(GEN_OUT)],
+                        ([[C('gen')], [C('g0')], [S(0)], [S(1)]], [C('stdin of the generator\n')])),
 }
+DEF_G = 'def program G = % gen g0 @[S0]@\n    -stdin <<EOF\nstdin of the generator\nEOF'
 # sources whose value can be taken without a file system / a process (kernel K2)
 PURE_TEXT_SOURCES = ('string', 'string-sq', 'empty', 'sym', 'sym3', 'here-doc')
 
@@ -190,7 +195,7 @@ class Den:
         self.argv = argv  # list of values (value = list of parts); argv[0] = program / shell command line
         self.stdin = stdin  # list of values, in order
         self.trans = trans  # list of names in X, in order of application
-        self.gens = gens  # processes that must have run to produce stdin: [(argv values)], in order
+        self.gens = gens  # processes that must have run to produce stdin: [(argv values, stdin value or None)], in order
 
 
 def denote(p: Pgm, defs: Dict[str, Pgm]) -> Den:
@@ -209,7 +214,7 @@ def denote(p: Pgm, defs: Dict[str, Pgm]) -> Den:
     if p.stdin is not None:
         d.stdin.append(T[p.stdin][1])
         if T[p.stdin][2] is not None:
-            d.gens.append(T[p.stdin][2][1])
+            d.gens.append(T[p.stdin][2])
     if p.trans is not None:
         d.trans.append(p.trans)
     return d
@@ -250,8 +255,8 @@ def procs_of(d: Den, role: str, env: Env, extra_stdin: Sequence = (), extra_gens
     the program itself.  stdin = the program's own parts in order, then `extra_stdin`
     (the [setup] stdin, for the action to check); None when there is no part at all."""
     out = []
-    for g in list(d.gens) + list(extra_gens):
-        out.append(Proc('gen', False, [ev(v, env) for v in g], None, cwd))
+    for g_argv, g_stdin in list(d.gens) + list(extra_gens):
+        out.append(Proc('gen', False, [ev(v, env) for v in g_argv], None if g_stdin is None else ev(g_stdin, env), cwd))
     parts = (list(extra_stdin) + list(d.stdin)) if extra_first else (list(d.stdin) + list(extra_stdin))
     stdin = None if not parts else ''.join(ev(v, env) for v in parts)
     out.append(Proc(role, d.shell, argv_of(d, env), stdin, cwd))
